@@ -2,7 +2,7 @@
 import gen
 import msggen
 
-QUICK = ["msg1005", "msg1230"]
+QUICK = ["msg1005"]
 THOROUGH = ["msg1005", "msg1230", "msg1006", "msg1013", "msg1033", "msg1057", "msg1071", "msg1077", "msg1127", "msg1304", "msg1001", "msg1029"]
 
 
@@ -43,7 +43,7 @@ pub fn unsupported_%d() {
         hs.append({"name": "c14::unsupported_%d" % n, "group": "stub", "tier": "quick" if n in (1018, 4095) else "thorough",
                    "bounds": "unsupported number %d through the public path => MsgNotSupported{%d}" % (n, n)})
     for l in (0, 1):
-        hs.append({"name": "c14::empty_%d" % l, "group": "stub", "tier": "quick", "bounds": "frame with L = %d inside a 12-byte buffer (arbitrary payload/bytes after the frame) => Empty" % l})
+        hs.append({"name": "c14::empty_%d" % l, "group": "stub", "tier": "thorough", "bounds": "frame with L = %d inside a 12-byte buffer (arbitrary payload/bytes after the frame) => Empty" % l})
     # the message-number rule for every declared length (shared with C03/C13)
     hs.append({"name": "c03::long", "group": "c03stub", "tier": "quick", "bounds": "message_number() is Some(first 12 payload bits) iff L >= 2, for every L 0..=1023 (CRC stubbed)"})
     gen.write_gen("c14_list.rs", "\n".join(code) + "\n")
